@@ -89,8 +89,9 @@ def _worker_init(init_fn):
         init_fn()
 
 
-def pmap(fn, jobs, init_fn=None, chunksize=None, nproc=None):
-    """Run fn over jobs in worker processes, each in its own sandbox.  Order preserved."""
+def pmap(fn, jobs, init_fn=None, chunksize=None, nproc=None, fresh_process_per_job=False):
+    """Run fn over jobs in worker processes, each in its own sandbox.  Order preserved.
+    fresh_process_per_job: every job runs in a newly forked process (the parent must not have imported the code under test)."""
     jobs = list(jobs)
     nproc = min(nproc or NPROC, max(1, len(jobs)))
     _base_dir()
@@ -100,6 +101,10 @@ def pmap(fn, jobs, init_fn=None, chunksize=None, nproc=None):
     if chunksize is None:
         chunksize = max(1, min(64, len(jobs) // (nproc * 8)))
     ctx = mp.get_context("fork")
+    if fresh_process_per_job:
+        assert "src" not in sys.modules, "parent process already imported the code under test"
+        with ctx.Pool(nproc, initializer=_worker_init, initargs=(init_fn,), maxtasksperchild=1) as pool:
+            return pool.map(fn, jobs, chunksize=1)
     with ctx.Pool(nproc, initializer=_worker_init, initargs=(init_fn,)) as pool:
         return pool.map(fn, jobs, chunksize=chunksize)
 
